@@ -160,6 +160,28 @@ const KINDS: [&str; 6] = ["sha256r", "sha256d", "hash160", "hmac-sha256r", "hmac
 const LENS: [usize; 24] = [0, 1, 2, 31, 32, 54, 55, 56, 57, 63, 64, 65, 110, 111, 112, 113, 119, 120, 127, 128, 129, 191, 192, 256];
 
 impl DigestStream {
+    /// Lengths for the write pattern of a caller that fills a staging buffer with small writes and then hands over a bulk write:
+    /// small pieces (each below one block) that sum to exactly one or two blocks (or one byte off), then one piece whose size
+    /// sits at a power-of-two threshold (or one byte off), then a short tail; possibly twice.
+    fn stage_then_bulk_lengths(rng: &mut Rng) -> Vec<usize> {
+        let mut lens = vec![];
+        for _ in 0..rng.range(1, 2) {
+            let target = (64 * rng.range(1, 2) as i64 + *rng.pick(&[0i64, 0, 0, -1, 1])) as usize;
+            let mut left = target;
+            while left > 0 {
+                let n = (rng.range(1, 63) as usize).min(left);
+                lens.push(n);
+                left -= n;
+            }
+            let bulk = (*rng.pick(&[64i64, 128, 256, 512, 1024, 1024, 2048, 4096, 8192]) + *rng.pick(&[0i64, 0, 0, -1, 1])) as usize;
+            lens.push(bulk);
+            if rng.chance(1, 2) {
+                lens.push(rng.range(0, 70) as usize);
+            }
+        }
+        lens
+    }
+
     fn fragments(rng: &mut Rng, data: &[u8]) -> (Vec<Vec<u8>>, &'static str) {
         let mode = rng.below(7);
         let mut out: Vec<Vec<u8>> = vec![];
@@ -241,7 +263,7 @@ impl Scenario for DigestStream {
             real: &["bsv::Sha256r / Sha256d / Hash160 through digest::{Update, Reset, FixedOutput, FixedOutputDirty}, Clone and ReversibleDigest", "hmac::Hmac over the three adapters (the composition Hash::*_hmac and RFC 6979 use)", "bsv::Hash::{sha_1, sha_256, sha_256d, sha_512, ripemd_160, hash_160} and their *_hmac variants", "bsv::KDF::pbkdf2 (SHA-1/256/512)"],
             stub: &["model = bytes accepted since the last reset, hashed one-shot by sha2 / sha-1 / ripemd160 directly", "textbook RFC 2104 HMAC and RFC 8018 PBKDF2 over those primitives (reference-model oracles without a schedule dimension of their own)"],
             assumptions: &["the primitive crates sha2, sha-1 and ripemd160 are the independent reference for the published algorithms", "whether the reversed mode survives reset / a *_reset finisher, and whether a second reverse() sets or toggles, is not fixed by the statement: after either, both byte orders are accepted for that instance (the first finish of a reversed instance, and every finish of a never-reversed one, is judged exactly)"],
-            required_probes: &["frag:dribble1", "frag:block-aligned", "frag:boundary", "frag:random", "frag:zero-length", "frag:block-edge", "via_digest_trait", "fork_midstream", "reset_midstream", "finalize_reset_then_second_message", "reversed_finalize", "oneshot", "hmac_key_longer_than_block", "pbkdf2_multi_block"],
+            required_probes: &["frag:dribble1", "frag:block-aligned", "frag:boundary", "frag:random", "frag:zero-length", "frag:block-edge", "frag:stage-then-bulk", "via_digest_trait", "fork_midstream", "reset_midstream", "finalize_reset_then_second_message", "reversed_finalize", "oneshot", "hmac_key_longer_than_block", "pbkdf2_multi_block"],
             quick_runs: 100000,
             thorough_runs: 5000000,
             rlimit_as: 4 << 30,
@@ -264,11 +286,20 @@ impl Scenario for DigestStream {
                 }
                 2 => {
                     let algo = *rng.pick(&["sha1", "sha256", "sha512"]);
-                    let rounds = *rng.pick(&[1u64, 2, 3, 7, 64]);
+                    // seed derivation from a mnemonic: PBKDF2-SHA512 with 2048 rounds, judged through the extended key it yields
+                    if rng.chance(1, 60) {
+                        let ml = rng.range(0, 160) as usize;
+                        let pl = rng.range(0, 40) as usize;
+                        let pass = if rng.chance(1, 2) { Some(hx(&rng.bytes(pl))) } else { None };
+                        events.push(json!({"op": "mnemonic", "mnemonic": hx(&rng.bytes(ml)), "passphrase": pass}));
+                        continue;
+                    }
+                    let rounds = if rng.chance(1, 12) { rng.range(1, 300) } else { *rng.pick(&[1u64, 2, 3, 7, 64]) };
+                    let random_salt = rng.chance(1, 10);
                     let len = *rng.pick(&[0u64, 1, 19, 20, 21, 31, 32, 33, 39, 40, 41, 60, 63, 64, 65, 96, 100, 127, 128, 129, 192, 200]);
                     let pl = if rng.chance(1, 3) { *rng.pick(&[0usize, 1, 63, 64, 65, 127, 128, 129]) } else { rng.range(0, 140) as usize };
                     let sl = rng.range(0, 140) as usize;
-                    events.push(json!({"op": "pbkdf2", "algo": algo, "pw": hx(&rng.bytes(pl)), "salt": hx(&rng.bytes(sl)), "rounds": rounds, "len": len}));
+                    events.push(json!({"op": "pbkdf2", "algo": algo, "pw": hx(&rng.bytes(pl)), "salt": hx(&rng.bytes(sl)), "rounds": rounds, "len": len, "random_salt": random_salt, "entropy": hx(&rng.bytes(if random_salt { 64 } else { 0 }))}));
                 }
                 _ => {
                     if n_sinks >= 3 {
@@ -278,10 +309,22 @@ impl Scenario for DigestStream {
                     let klen = *rng.pick(&[0usize, 1, 32, 63, 64, 65, 100]);
                     let s = n_sinks;
                     n_sinks += 1;
-                    events.push(json!({"op": "new", "kind": kind, "key": hx(&rng.bytes(klen))}));
-                    let n = if rng.chance(2, 3) { *rng.pick(&LENS) } else { rng.usize(max_len) };
+                    events.push(json!({"op": "new", "kind": kind, "key": hx(&rng.bytes(klen)), "born_reversed": kind == "hash160" && rng.chance(1, 6)}));
+                    let staged = rng.chance(1, 10);
+                    let stage_lens = if staged { Self::stage_then_bulk_lengths(rng) } else { vec![] };
+                    let n = if staged { stage_lens.iter().sum() } else if rng.chance(2, 3) { *rng.pick(&LENS) } else { rng.usize(max_len) };
                     let data = rng.bytes(n);
-                    let (frags, fname) = Self::fragments(rng, &data);
+                    let (frags, fname) = if staged {
+                        let mut out = vec![];
+                        let mut p = 0;
+                        for l in &stage_lens {
+                            out.push(data[p..p + l].to_vec());
+                            p += l;
+                        }
+                        (out, "frag:stage-then-bulk")
+                    } else {
+                        Self::fragments(rng, &data)
+                    };
                     let reversed_at = if !kind.starts_with("hmac-") && rng.chance(1, 4) { Some(rng.usize(frags.len() + 1)) } else { None };
                     let mut reversed = false;
                     for (i, f) in frags.iter().enumerate() {
@@ -304,7 +347,7 @@ impl Scenario for DigestStream {
                             events.push(json!({"op": "reset", "sink": s}));
                         }
                         if rng.chance(1, 25) {
-                            events.push(json!({"op": "finalize_reset", "sink": s, "how": *rng.pick(&["fixed_reset", "into_reset"])}));
+                            events.push(json!({"op": "finalize_reset", "sink": s, "how": *rng.pick(&["fixed_reset", "into_reset", "digest_reset"])}));
                         }
                     }
                     if Some(frags.len()) == reversed_at {
@@ -314,7 +357,7 @@ impl Scenario for DigestStream {
                     let _ = reversed;
                     if rng.chance(1, 3) {
                         // finish, then a second message through the same sink
-                        events.push(json!({"op": "finalize_reset", "sink": s, "how": *rng.pick(&["fixed_reset", "into_reset"])}));
+                        events.push(json!({"op": "finalize_reset", "sink": s, "how": *rng.pick(&["fixed_reset", "into_reset", "digest_reset"])}));
                         let m = rng.range(0, 130) as usize;
                         let d2 = rng.bytes(m);
                         let (fr2, fname2) = Self::fragments(rng, &d2);
@@ -326,7 +369,7 @@ impl Scenario for DigestStream {
                         // reset directly before finishing: the digest of the empty message
                         events.push(json!({"op": "reset", "sink": s}));
                     }
-                    events.push(json!({"op": "finalize", "sink": s}));
+                    events.push(json!({"op": "finalize", "sink": s, "how": *rng.pick(&["fixed", "digest"])}));
                 }
             }
         }
@@ -363,8 +406,16 @@ impl Scenario for DigestStream {
             match op.as_str() {
                 "new" => {
                     match guard(|| Sink::new(jstr(ev, "kind"), &jhex(ev, "key"))) {
-                        Ok(Some(s)) => {
+                        Ok(Some(mut s)) => {
                             ctx.event(seq, "new", jstr(ev, "kind"));
+                            if jbool(ev, "born_reversed") && s.kind == "hash160" {
+                                // the constructor that starts in reversed-output mode
+                                if let Ok(h) = guard(|| Hash160::new(true)) {
+                                    s.eng = Engine::H(h);
+                                    s.reversed = true;
+                                    ctx.probe("hash160_constructed_reversed");
+                                }
+                            }
                             sinks.push(Some(s));
                         }
                         Ok(None) => ctx.skip(),
@@ -430,9 +481,21 @@ impl Scenario for DigestStream {
                     if len > hl {
                         ctx.probe("pbkdf2_multi_block");
                     }
-                    match guard(|| KDF::pbkdf2(&pw, Some(salt.clone()), algo, rounds, len)) {
+                    let random_salt = jbool(ev, "random_salt");
+                    if random_salt {
+                        // salt drawn by the library from the (simulated) system source; whatever it drew, the output must be PBKDF2 of it
+                        ctx.probe("pbkdf2_library_drawn_salt");
+                        ctx.fault("entropy-script");
+                        bsv::verif_hooks::install_entropy(&jhex(ev, "entropy"), 0x5a17);
+                    }
+                    let r = guard(|| KDF::pbkdf2(&pw, if random_salt { None } else { Some(salt.clone()) }, algo, rounds, len));
+                    if random_salt {
+                        let _ = bsv::verif_hooks::uninstall_entropy();
+                    }
+                    match r {
                         Ok(k) => {
                             let got = k.get_hash().to_bytes();
+                            let salt = if random_salt { k.get_salt() } else { salt.clone() };
                             let want = ref_pbkdf2(name, &pw, &salt, rounds, len);
                             if got != want || k.get_salt() != salt {
                                 if ctx.violate("mismatch", format!("pbkdf2-mismatch:{}", name), format!("pbkdf2-{} rounds {} len {}: got {} want {}", name, rounds, len, hx(&got), hx(&want))) {
@@ -442,6 +505,36 @@ impl Scenario for DigestStream {
                         }
                         Err(p) => {
                             if ctx.violate("panic", format!("panic@{}#pbkdf2-{}", site_file(&p.site), name), p.msg) {
+                                return;
+                            }
+                        }
+                    }
+                }
+                "mnemonic" => {
+                    ctx.event(seq, "mnemonic", "");
+                    ctx.probe("mnemonic_seed_2048_rounds");
+                    let mn = jhex(ev, "mnemonic");
+                    let pass: Option<Vec<u8>> = ev.get("passphrase").and_then(|p| p.as_str()).and_then(|h| hex::decode(h).ok());
+                    // the salt convention (passphrase, or the word "mnemonic" when there is none) is the library's; what is judged is
+                    // PBKDF2-HMAC-SHA512 x 2048 -> 64 bytes, then HMAC-SHA512 keyed "Bitcoin seed" split into key and chain code
+                    let salt = pass.clone().unwrap_or_else(|| b"mnemonic".to_vec());
+                    let seed = ref_pbkdf2("sha512", &mn, &salt, 2048, 64);
+                    let i = ref_hmac("sha512", b"Bitcoin seed", &seed);
+                    let r = guard(|| bsv::ExtendedPrivateKey::from_mnemonic(&mn, pass.clone()).map(|x| (x.get_private_key().to_bytes(), x.get_chain_code())).map_err(|e| e.to_string()));
+                    match r {
+                        Ok(Ok((k, c))) => {
+                            if k != i[..32] || c != i[32..] {
+                                if ctx.violate("mismatch", "mnemonic-seed-mismatch".into(), format!("from_mnemonic ({} byte mnemonic, passphrase {}) gives key {} chain code {}, the reference PBKDF2-SHA512/2048 + HMAC-SHA512 gives {} {}", mn.len(), if pass.is_some() { "given" } else { "absent" }, hx(&k), hx(&c), hx(&i[..32]), hx(&i[32..]))) {
+                                    return;
+                                }
+                            }
+                        }
+                        Ok(Err(_)) => {
+                            // the left half is not a valid secret (zero or >= n): probability 2^-127
+                            ctx.probe("mnemonic_refused");
+                        }
+                        Err(p) => {
+                            if ctx.violate("panic", format!("panic@{}#from_mnemonic", site_file(&p.site)), p.msg) {
                                 return;
                             }
                         }
@@ -494,6 +587,19 @@ impl Scenario for DigestStream {
                                 // digest::impl_write! is gated on a `std` feature the bsv crate does not define, so the
                                 // adapters have no io::Write impl in any build; "write"/"write_all" events feed through
                                 // digest::Digest::update / chain-style calls instead (second public feeding path)
+                                (Engine::R(e), "write_all") => {
+                                    // the builder-style call the signing path uses (get_hash_digest): consumes and returns the adapter
+                                    *e = Digest::chain(e.clone(), &data);
+                                    Ok(data.len())
+                                }
+                                (Engine::D(e), "write_all") => {
+                                    *e = Digest::chain(e.clone(), &data);
+                                    Ok(data.len())
+                                }
+                                (Engine::H(e), "write_all") => {
+                                    *e = Digest::chain(e.clone(), &data);
+                                    Ok(data.len())
+                                }
                                 (Engine::R(e), _) => {
                                     Digest::update(e, &data);
                                     Ok(data.len())
@@ -646,6 +752,9 @@ impl Scenario for DigestStream {
                             }
                             let how = jstr(ev, "how").to_string();
                             let got = guard(|| match &mut s.eng {
+                                Engine::R(e) if how == "digest_reset" => Digest::finalize_reset(e).to_vec(),
+                                Engine::D(e) if how == "digest_reset" => Digest::finalize_reset(e).to_vec(),
+                                Engine::H(e) if how == "digest_reset" => Digest::finalize_reset(e).to_vec(),
                                 Engine::R(e) => {
                                     if how == "into_reset" {
                                         let mut out = Default::default();
@@ -702,7 +811,14 @@ impl Scenario for DigestStream {
                                 ctx.probe("reversed_finalize");
                             }
                             let want_holder = s.fork();
+                            let via_digest = jstr(ev, "how") == "digest";
+                            if via_digest {
+                                ctx.probe("finalize_via_digest_trait");
+                            }
                             let got = guard(move || match s.eng {
+                                Engine::R(e) if via_digest => Digest::finalize(e).to_vec(),
+                                Engine::D(e) if via_digest => Digest::finalize(e).to_vec(),
+                                Engine::H(e) if via_digest => Digest::finalize(e).to_vec(),
                                 Engine::R(e) => e.finalize_fixed().to_vec(),
                                 Engine::D(e) => e.finalize_fixed().to_vec(),
                                 Engine::H(e) => FixedOutput::finalize_fixed(e).to_vec(),
